@@ -94,7 +94,12 @@ def finish(rep, level='other', explanation='', seed=0, extra_cov=None):
     for k in sorted(seen_known):
         print('KNOWN-FINDING: property=%s %s' % (pid, known_keys[k].get('what', k)))
     vdir = os.path.join(VERIF, 'violations') if not os.environ.get('VERIF_NO_EVIDENCE') else os.path.join(VERIF, '.cache', 'scratch-violations')
+    per_rule = {}
+    CAP = 15
     for v in new:
+        per_rule[v['rule']] = per_rule.get(v['rule'], 0) + 1
+        if per_rule[v['rule']] > CAP:
+            continue            # counted (exit status, evidence), not printed: one rule instance per state can fire thousands of times
         os.makedirs(vdir, exist_ok=True)
         k = vkey(pid, v)
         path = os.path.join(vdir, '%s-%s.json' % (pid, hashlib.sha256(k.encode()).hexdigest()[:12]))
@@ -102,6 +107,9 @@ def finish(rep, level='other', explanation='', seed=0, extra_cov=None):
             json.dump(dict(property=pid, key=k, rule=v['rule'], message=v['msg'], where=v.get('where'), tier=rep.tier), f, indent=1)
         print('%s: rule=%s key=%s\n    %s%s' % (pid, v['rule'], v['key'], v['msg'], ('\n    at ' + v['where']) if v.get('where') else ''))
         print('VIOLATION property=%s replay=%s' % (pid, path))
+    for rule, n in sorted(per_rule.items()):
+        if n > CAP:
+            print('%s: rule=%s: %d further violations of this rule not listed' % (pid, rule, n - CAP))
     # ---- evidence ----
     evals = 0
     distinct = set()
